@@ -186,6 +186,9 @@ def run(shard, ctx):
                                                        float("-inf"), float("nan"), True, False, 1.0000000000000002,
                                                        0.9999999999999999, 3.9999999999999996, 4.000000000000001]
         funits += [Fraction(1, 2), Fraction(4, 1), Fraction(3, 2), Fraction(8, 2)]
+        # the floats next to each power of two (one unit in the last place away)
+        for k in list(range(0, 70)) + [100, 500, 1000, 1023]:
+            funits += [math.nextafter(2.0 ** k, 0.0), math.nextafter(2.0 ** k, math.inf), 2.0 ** k]
         for u in funits:
             check_unit(ctx, u)
         for count in range(-10, 61):
